@@ -160,7 +160,27 @@ def run(chk):
     final = env.get("value")
     txt = src(final) if final is not None else "?"
     good = {"int(round(value / self.factor))", "round(value / self.factor)", "int(round(value / self.factor, 0))"}
-    if txt in good:
+    # decided by evaluation where the expression folds: the stored raw value is the nearest integer of value / factor (ties as
+    # round() breaks them) for quotients with fractions below, at and above one half, of both signs
+    decided_ = None
+    if final is not None and txt not in good:
+        from .common import substitute_src as _sub3
+        wrong_ = None
+        for v_, f_ in ((2.6, 1), (2.4, 1), (0.3, 0.1), (-127.8, 1), (7, 2), (-7, 2), (11, -10), (5, 0.5), (1e6 + 0.75, 1), (-0.6, 1)):
+            got_ = folder.try_fold(_sub3(final, {"value": v_, "self.factor": f_}), Scope(ep.mod), "?")
+            if got_ == "?":
+                wrong_ = "?"
+                break
+            want_ = int(round(v_ / f_))
+            if got_ != want_:
+                wrong_ = wrong_ or f"physical value {v_} with factor {f_}: raw value {got_!r}, the nearest integer of {v_ / f_} is {want_}"
+        if wrong_ != "?":
+            decided_ = wrong_ or True
+    if decided_ is True:
+        chk.ok("R3", f"{OD}:ODVariable.encode_phys | nearest integer of value / factor", ep.loc(), f"`{txt}` evaluated for 10 quotients")
+    elif decided_:
+        chk.bad("R3", f"{OD}:ODVariable.encode_phys | nearest integer of value / factor", ep.loc(), f"`{txt}`: {decided_}")
+    elif txt in good:
         chk.ok("R3", f"{OD}:ODVariable.encode_phys | nearest integer of value / factor", ep.loc(), txt)
     elif "copysign" in txt or "+ 0.5" in txt or "- 0.5" in txt:
         # half-step offset: its sign must be that of the scaled quotient, not of the physical value or the factor
